@@ -181,9 +181,7 @@ ApplyStimulus(L, e, l) ==
                                          THEN [set |-> TRUE, man |-> e.dst = "BC_MAN", reported |-> FALSE,
                                                maybe |-> FALSE]
                                          ELSE @]
-                      \* an executed DISABLE_UNSOLICITED ends the unsolicited wait
-                      L4 == IF e.fc = 21 /\ e.wf THEN [L3 EXCEPT !.uns.active = FALSE] ELSE L3
-                  IN L4
+                  IN L3
       [] OTHER -> L0
 
 -----------------------------------------------------------------------------
@@ -230,26 +228,38 @@ AllModelled(hdrs) == \A i \in 1..Len(hdrs) : HdrModelled(hdrs[i])
 
 IsPrefixOf(a, b) == Len(a) <= Len(b) /\ \A i \in 1..Len(a) : a[i] = b[i]
 
-ApplyTx(L, x, l) ==
+\* a re-sent fragment (unsolicited retry, echo of a repeated READ in the confirm wait) is the same
+\* fragment again: nothing is matched anew, only its confirm timer restarts
+IsUnsolRetry(L, x) == x.uns /\ L.uns.has /\ L.uns.active /\ L.uns.seq = x.seq /\ L.uns.bid = x.bid
+IsSolEcho(L, x)    == ~x.uns /\ L.repeat /\ Awaiting(L.sol, L, x.t)
+
+\* the reply to DISABLE_UNSOLICITED marks the moment the request took effect: an unsolicited
+\* fragment transmitted earlier (possibly earlier on this very line) is no longer awaited
+EndsUnsolWait(e, x) == ~x.uns /\ e.k = "rx" /\ e.fc = 21 /\ e.wf /\ x.seq = e.seq
+
+ApplyTx(L00, x, e, l) ==
+    LET L == IF EndsUnsolWait(e, x) THEN [L00 EXCEPT !.uns.active = FALSE] ELSE L00 IN
+    IF IsUnsolRetry(L, x) THEN [L EXCEPT !.uns.t = x.t, !.uns.sends = @ + 1, !.sent = @ \cup {x.bid}]
+    ELSE IF IsSolEcho(L, x) THEN [L EXCEPT !.sol.t = x.t, !.sol.sends = @ + 1, !.rd.pend = FALSE,
+                                           !.sent = @ \cup {x.bid}]
+    ELSE
     LET mt  == MatchFragment(L, x)
         ids == mt.ids
+        L0 == [L EXCEPT !.sent = @ \cup {x.bid}]
         L1 == IF mt.bad > 0
-                THEN AddViol(L, "C03", "no-match", l,
+                THEN AddViol(L0, "C03", "no-match", l,
                              "transmitted event object matches no recorded, unreleased event (invented or altered)")
-                ELSE L
+                ELSE L0
         L2 == IF ~Ascending(ids)
                 THEN AddViol(L1, "C03", "order", l, "events not reported oldest first")
                 ELSE L1
     IN
     IF x.uns THEN
-        IF L2.uns.has /\ L2.uns.seq = x.seq /\ L2.uns.bid = x.bid /\ L2.uns.active
-          THEN [L2 EXCEPT !.uns.t = x.t, !.uns.sends = @ + 1]
-          ELSE [L2 EXCEPT !.uns = [has |-> TRUE, active |-> x.con, seq |-> x.seq, bid |-> x.bid,
-                                   ids |-> ids, t |-> x.t, sends |-> 1]]
+        [L2 EXCEPT !.uns = [has |-> TRUE, active |-> x.con, seq |-> x.seq, bid |-> x.bid,
+                            ids |-> ids, t |-> x.t, sends |-> 1]]
     ELSE
         \* solicited: start of a series?
-        LET echoCtx == L2.repeat /\ Awaiting(L2.sol, L2, x.t)
-            starts == x.fir /\ L2.rd.pend /\ x.seq = L2.rd.seq /\ ~echoCtx
+        LET starts == x.fir /\ L2.rd.pend /\ x.seq = L2.rd.seq
             L3 == IF starts
                     THEN [L2 EXCEPT !.rd.pend = FALSE,
                                     !.ser = [active |-> TRUE,
@@ -258,24 +268,22 @@ ApplyTx(L, x, l) ==
                                              next |-> x.seq]]
                     ELSE L2
             inSeries == L3.ser.active /\ x.seq = L3.ser.next /\ (starts \/ ~x.fir)
-        IN IF echoCtx THEN [L3 EXCEPT !.sol.t = x.t, !.sol.sends = @ + 1, !.rd.pend = FALSE]
-           ELSE
-           LET L4 == IF inSeries /\ L3.ser.check /\ ~IsPrefixOf(ids, L3.ser.S)
-                       THEN AddViol(L3, "C03", "withheld", l,
-                                    "poll response skips an eligible event while carrying a younger one")
-                       ELSE L3
-               rest == IF inSeries THEN RemoveIds(L4.ser.S, SeqToSet(ids)) ELSE L4.ser.S
-               L5 == IF inSeries /\ L4.ser.check /\ x.fin /\ rest # <<>> /\ IsPrefixOf(ids, L4.ser.S)
-                       THEN AddViol(L4, "C03", "withheld", l,
-                                    "final response of a poll omits eligible events")
-                       ELSE L4
-               L6 == IF inSeries
-                       THEN [L5 EXCEPT !.ser.S = rest, !.ser.next = Seq16(x.seq + 1),
-                                       !.ser.active = ~x.fin]
-                       ELSE L5
-           IN IF x.con \/ ids # <<>>
-                THEN [L6 EXCEPT !.sol = [has |-> TRUE, active |-> x.con, seq |-> x.seq, bid |-> x.bid,
-                                         ids |-> ids, t |-> x.t, sends |-> 1]]
-                ELSE L6
+            L4 == IF inSeries /\ L3.ser.check /\ ~IsPrefixOf(ids, L3.ser.S)
+                    THEN AddViol(L3, "C03", "withheld", l,
+                                 "poll response skips an eligible event while carrying a younger one")
+                    ELSE L3
+            rest == IF inSeries THEN RemoveIds(L4.ser.S, SeqToSet(ids)) ELSE L4.ser.S
+            L5 == IF inSeries /\ L4.ser.check /\ x.fin /\ rest # <<>> /\ IsPrefixOf(ids, L4.ser.S)
+                    THEN AddViol(L4, "C03", "withheld", l,
+                                 "final response of a poll omits eligible events")
+                    ELSE L4
+            L6 == IF inSeries
+                    THEN [L5 EXCEPT !.ser.S = rest, !.ser.next = Seq16(x.seq + 1),
+                                    !.ser.active = ~x.fin]
+                    ELSE L5
+        IN IF x.con \/ ids # <<>>
+             THEN [L6 EXCEPT !.sol = [has |-> TRUE, active |-> x.con, seq |-> x.seq, bid |-> x.bid,
+                                      ids |-> ids, t |-> x.t, sends |-> 1]]
+             ELSE L6
 
 =============================================================================
